@@ -514,8 +514,18 @@ func c18r3(p *Program, r *Report) {
 		if !ok || len(as.Rhs) != 1 {
 			return false
 		}
-		c, ok := ast.Unparen(as.Rhs[0]).(*ast.CallExpr)
-		return ok && calleeName(fn.Pkg.TypesInfo, c) == "Compressor.Decode" && len(as.Lhs) >= 1 && strings.ReplaceAll(exprStr(as.Lhs[0]), " ", "") == "f.buf"
+		if len(as.Lhs) < 1 || !p.isField(fn.Pkg.TypesInfo, as.Lhs[0], "framer", "buf") {
+			return false
+		}
+		// f.buf, err = Decode(..), or f.buf = plain with plain, err := Decode(..)
+		rhs := ast.Unparen(as.Rhs[0])
+		if id, isId := rhs.(*ast.Ident); isId {
+			if d := localDefMulti(fn.Pkg.TypesInfo, fn, id); d != nil {
+				rhs = ast.Unparen(d)
+			}
+		}
+		c, ok := rhs.(*ast.CallExpr)
+		return ok && calleeName(fn.Pkg.TypesInfo, c) == "Compressor.Decode"
 	}
 	_, exits := sp.analyse(rf, ftState{pairs: map[[2]int]bool{{0, 0}: true}}, 0)
 	n := 0
